@@ -456,3 +456,4 @@ def replay_writer_injective(rp):
             if bad else "texts %s, connections %s" % ("equal" if texts[0] == texts[1] else "differ", "differ" if diff else "equal"))
     finally:
         shutil.rmtree(d, ignore_errors=True)
+
